@@ -173,7 +173,7 @@ impl<F: Float, L> ParamGuard for DecisionTreeParams<F, L> {
     type Error = Error;
 
     fn check_ref(&self) -> Result<&Self::Checked> {
-        if self.0.min_impurity_decrease < F::epsilon() {
+        if self.0.min_impurity_decrease <= F::zero() {
             Err(Error::Parameters(format!(
                 "Minimum impurity decrease should be greater than zero, but was {}",
                 self.0.min_impurity_decrease
